@@ -268,3 +268,41 @@ def socketpair_feed(data: bytes, sizes, delay=0.0005):
     t = threading.Thread(target=feeder, daemon=True)
     t.start()
     return b, t
+
+
+def pipe_file(data: bytes):
+    """A buffered, NON-seekable binary file object (read end of an OS pipe) fed by a writer thread.
+    Returns (fileobj, thread). tell()/seek() raise on such objects although the methods exist."""
+    import os
+
+    r, w = os.pipe()
+
+    def feed():
+        try:
+            with os.fdopen(w, "wb") as f:
+                f.write(data)
+        except OSError:
+            pass
+
+    t = threading.Thread(target=feed, daemon=True)
+    t.start()
+    return os.fdopen(r, "rb"), t
+
+
+def makefile_stream(data: bytes):
+    """socket.makefile('rb') over a real socket pair fed by a thread (buffered, non-seekable)."""
+    a, b = socket.socketpair()
+
+    def feed():
+        try:
+            a.sendall(data)
+        except OSError:
+            pass
+        finally:
+            a.close()
+
+    t = threading.Thread(target=feed, daemon=True)
+    t.start()
+    f = b.makefile("rb")
+    b.close()
+    return f, t
